@@ -65,8 +65,10 @@ TEXTS = {
     "C04": {
         "text": "Theorems (Properties/C04.v, about the Gallina transcription of defaults.rs, in EVERY number structure): a term compared with "
                 "itself scores 1 for GraphIC / Jiang-Conrath / Mutation; two distinct unannotated terms score 0 for Mutation; Distance ignores "
-                "the kind; the zero-denominator guards of Lin and JC; Resnik is 0 or the IC of a common ancestor (selves included). PARTIAL: "
-                "'value of the documented formula', symmetry, finite and >= 0 are decided per input by spec_C04, which recomputes all 24 scores "
+                "the kind; the zero-denominator guards of Lin and JC; Resnik is 0 or the IC of a common ancestor (selves included); SYMMETRY of "
+                "all 8 algorithms x 3 kinds (whenever a score is returned the swapped call returns the same score) in every number structure "
+                "with commutative addition, resting on C12's list equalities for union / intersection. PARTIAL: "
+                "'value of the documented formula', finite and >= 0 are decided per input by spec_C04, which recomputes all 24 scores "
                 "of every ordered pair from the crate's own observation (ancestor sets, ICs, shortest distances, annotation sets) in binary32 "
                 "and demands bit equality, equality under argument swap, no NaN / infinity / negative value and the special cases; the "
                 "transcription is diffed bit for bit against the crate. No theorem covers float rounding / overflow; expf is an oracle.",
@@ -151,7 +153,8 @@ TEXTS = {
     },
     "C13": {
         "text": "Theorems (Properties/C13.v, about the Gallina transcription): without_obsolete / with_replaced_obsolete are exactly the stated "
-                "filter / substitution (result strictly ascending, membership characterised), in-place variants equal the copying ones. spec_C13 "
+                "filter / substitution, child_nodes keeps exactly the members that are no ancestor of any member, without_modifier exactly the "
+                "non-modifier members (results strictly ascending, membership characterised), in-place variants equal the copying ones. spec_C13 "
                 "states child_nodes, modifier filter, unions of annotation ids, category counts and aggregated IC against the observation and "
                 "is evaluated on the crate's observation of every generated set; model and crate are diffed.",
         "design_ref": "DESIGN.md §4 C13", "note": NOTE_COMMON, "technique": TECH,
